@@ -5,6 +5,8 @@ complete observation (all surviving entities, all containers, all single links, 
 import file_common
 
 def run(chk, replay=None):
+    if replay is not None and replay.get('m') == 'trace':
+        return file_common.run_traces(chk, lambda e: e['a'] == 'Delete', 1, 0, replay=replay)
     t = 't' if chk.thorough else 'q'
     cfgs = ['c04%s_%s' % (x, t) for x in 'abcdefg']
     sims = [('all', 3000 if chk.thorough else 150, 30)]
@@ -14,4 +16,6 @@ def run(chk, replay=None):
                 'sources+sections+properties; with close/reopen in between), BFS exhaustive, plus Delete steps of random behaviours over '
                 'the whole vocabulary; non-trivial = distinct (history, step)')
     file_common.run_file_check(chk, cfgs, sims, judge=judge, replay=replay, coverage=['Delete', 'pre:AddLink', 'pre:SetOne', 'pre:AppendDim'])
+    # direction B: random API programs recorded from the real library, validated against NixFileTrace.tla
+    file_common.run_traces(chk, lambda e: e['a'] == 'Delete', 24 if chk.thorough else 6, 1500 if chk.thorough else 400)
     chk.exhaustive = False
